@@ -532,7 +532,8 @@ def run(prog, rep):
                   witness="two sub-Sections 'rec' under one Section in a v1.0 file: one of them is missing from the converted document")
 
     rep.rule("DICT-2", "the dictionary front end (_parse_dict_sections / _parse_dict_properties / _parse_dict_values and what they call) abandons no "
-                       "item of its input lists: no continue / break inside their loops. What is not exported is dropped later by _convert, which "
+                       "item of its input lists: the loop over the list parameter has no continue / break of its own (a loop over the keys of one "
+                       "item may skip an empty key). What is not exported is dropped later by _convert, which "
                        "logs it (LOG-1); an item skipped here disappears without a log entry - and only for JSON / YAML sources")
     n_loops = 0
     for nm in ("_parse_dict_sections", "_parse_dict_properties", "_parse_dict_values"):
@@ -542,9 +543,21 @@ def run(prog, rep):
         for fx in private_closure(f0):
             if fx.name in ("_log",):
                 continue
-            for lp in [x for x in walk_no_nested(fx.node) if isinstance(x, (ast.For, ast.While))]:
+            for lp in [x for x in walk_no_nested(fx.node) if isinstance(x, ast.For) and isinstance(x.iter, ast.Name) and x.iter.id in fx.params]:
                 n_loops += 1
-                jumps = [y for b in lp.body for y in ast.walk(b) if isinstance(y, (ast.Continue, ast.Break))]
+
+                def own_jumps(stmts):
+                    out = []
+                    for b in stmts:
+                        if isinstance(b, (ast.Continue, ast.Break)):
+                            out.append(b)
+                        elif not isinstance(b, (ast.For, ast.While, ast.FunctionDef, ast.ClassDef)):
+                            for fld in ("body", "orelse", "finalbody"):
+                                out += own_jumps(getattr(b, fld, None) or [])
+                            for hd in getattr(b, "handlers", []):
+                                out += own_jumps(hd.body)
+                    return out
+                jumps = own_jumps(lp.body)
                 rep.check(not jumps, "DICT-2", "%s: loop over %s visits every item" % (fx.name, unparse(lp.iter if isinstance(lp, ast.For) else lp.test)[:30]), "no continue / break",
                           "%s skips items of `%s` with %s: such an item never becomes an element, so _convert cannot log that it was omitted"
                           % (fx.name, unparse(lp.iter if isinstance(lp, ast.For) else lp.test)[:40], type(jumps[0]).__name__.lower() if jumps else ""),
